@@ -212,6 +212,10 @@ func Run(r *ev.Run) {
 		r.Violation("non-vacuity:secret-scanner-selftest", "the secret scanner does not find a planted key in raw/hex/base64 form")
 		return
 	}
+	if os.Getenv("C07_ONLY") == "warm" { // development aid: only the warm-handle layer (the guards of the other layers then fail)
+		runWarm(r)
+		return
+	}
 	runSecrets(r)
 	runRingStates(r)
 	runBinding(r)
